@@ -443,6 +443,41 @@ def reader_cancel(prog, rep, u, wt, ls):
               function=cn.name, construct="cancel-discards-progress")
 
 
+
+def writer_samebuf(prog, rep):
+    """F9: a reservation and its consumption address the same buffer.  netbuf_write_consume() credits the bytes to the last
+    queued buffer, so the space netbuf_write_reserve() hands out must lie in that buffer too: the buffer it returns a
+    pointer into is the queue's last element (STAILQ_LAST) or the fresh one it has just appended at the tail -- never one
+    found by walking the queue."""
+    u = prog.unit(WU)
+    rv = u.func("netbuf_write_reserve")
+    cs = u.func("netbuf_write_consume")
+    if rv is None or cs is None:
+        raise cdb.AnalysisBroken("anchor missing: netbuf_write_reserve / netbuf_write_consume")
+
+    def wb_defs(f):
+        out = []
+        for e in f.all_elems():
+            if e.is_assign and e.op == "=" and norm(e.kid(0))[0] == "v" and (f.unit.types.get(e.kid(0).ty) or {}).get("pointee", "").replace(" ", "") == "structwritebuf":
+                rhs = e.kid(1).strip() if e.kid(1) is not None else None
+                kind = "other"
+                stack = set(e.macro) | (set(rhs.macro) if rhs is not None else set())
+                if rhs is not None and rhs.cls == "CallExpr" and rhs.callee in ("malloc", "calloc"):
+                    kind = "fresh"
+                elif "STAILQ_LAST" in stack and not (stack & {"STAILQ_FOREACH", "STAILQ_FIRST", "STAILQ_NEXT", "STAILQ_FOREACH_SAFE"}):
+                    kind = "last"
+                out.append((e, kind))
+        return out
+    rd = wb_defs(rv)
+    cd = wb_defs(cs)
+    bad = [e for e, k in rd if k == "other"]
+    tail = any("STAILQ_INSERT_TAIL" in e.macro for e in rv.all_elems())
+    ok = bool(rd) and not bad and any(k == "last" for _, k in rd) and any(k == "fresh" for _, k in rd) and tail and bool(cd) and all(k == "last" for _, k in cd)
+    rep.check(ok, "F9-samebuf", "reserve hands out space in the buffer consume will credit: the queue's last buffer or the one just appended", rv.loc,
+              "buffer selections in netbuf_write_reserve: %s; in netbuf_write_consume: %s; appended at the tail: %s" % (
+                  [(e.text[:30], k) for e, k in rd], [(e.text[:30], k) for e, k in cd], tail), function=rv.name, construct="samebuf")
+
+
 def f5_compaction(rep, u, wt):
     """F5: moving the unconsumed bytes to the front of the buffer is the triple copy(datalen - bufpos bytes from
     &buf[bufpos]); datalen -= bufpos; bufpos = 0 -- in that order (adjusting the cursors first makes the copy a no-op and
@@ -622,6 +657,7 @@ def run(tier):
         prog = ir.Program([WU, RU], cfg)
         rep.add_stats(prog)
         writer(prog, rep)
+        writer_samebuf(prog, rep)
         orphan_rule(prog, rep)
         reader(prog, rep)
         # the transport below the buffers is part of this property's anchored code: a wrong byte count reported by
